@@ -343,6 +343,75 @@ func checkC06(c *core.Ctx) {
 	})
 	// pieces longer than 2^32 ticks: 18..26 instances of 250,000 beats, a control change on each so that no track
 	// idles beyond 2^28 ticks
+	// tens of thousands of ops on one track (beyond any 16-bit count or block size), with rests so that tracks carry a
+	// pending delay when the count is crossed: 17,000 x (rest, four-note chord) and 66,000 chords with a tempo each
+	c.Stream("verylong", c.N(2, 8), func(i int, r *rand.Rand) {
+		var p model.Piece
+		ns := []int{2, 3, 4}
+		if i%2 == 0 {
+			for j := 0; j < 17000+r.Intn(500); j++ {
+				p.Inst = append(p.Inst, model.Instance{Values: []model.Frac{{Num: 1, Den: 2}}},
+					model.Instance{Chord: &model.ChordSpec{Deg: model.SimpleInterval(r, 7), Symbol: "7"}, Values: one()})
+			}
+		} else {
+			for j := 0; j < 66000+r.Intn(500); j++ {
+				in := model.Instance{Chord: &model.ChordSpec{Deg: model.SimpleInterval(r, 7), Symbol: "m"}, Values: []model.Frac{{Num: 1, Den: 4}}, BPM: uint64(60 + j%120)}
+				if j%50 == 17 {
+					in.Chord = nil
+				}
+				p.Inst = append(p.Inst, in)
+			}
+			ns = []int{2, 5}
+		}
+		if !p.Effective(model.Flags{}).AllInRange() {
+			return
+		}
+		if compareTracks(c, "verylong", i, p, ns, false) {
+			c.Nontrivial(fmt.Sprintf("verylong%d", i))
+		}
+	})
+
+	// instances of 2^64 ticks and more, in several spellings (one numeral, whole numbers that only sum up to it, tick
+	// counts whose low 64 bits are small): no MIDI file can hold them, so every track count must refuse the piece
+	hugeBeats := [][]model.Frac{
+		{{Num: 288230376151711745, Den: 1}}, {{Num: 288230376151711744, Den: 1}}, {{Num: 576460752303423488, Den: 1}}, {{Num: 1 << 63, Den: 1}},
+		{{Num: 18446744073709551615, Den: 1}, {Num: 2, Den: 1}}, {{Num: 1 << 63, Den: 1}, {Num: 1 << 63, Den: 1}}, {{Num: 18446744073709551615, Den: 1}, {Num: 1, Den: 1}},
+		{{Num: 18446744073709551615, Den: 960}, {Num: 1921, Den: 960}}, {{Num: 1 << 62, Den: 1}, {Num: 1 << 62, Den: 1}, {Num: 1 << 63, Den: 1}, {Num: 3, Den: 1}},
+		{{Num: 19215358410114116, Den: 1}, {Num: 1, Den: 15}}, {{Num: 18446744073709551615, Den: 1}, {Num: 18446744073709551615, Den: 1}, {Num: 2, Den: 1}},
+	}
+	c.Stream("hugebeats", len(hugeBeats)*3, func(i int, r *rand.Rand) {
+		v := hugeBeats[i%len(hugeBeats)]
+		n := []int{1, 2, 3}[i/len(hugeBeats)]
+		var p model.Piece
+		ch := &model.ChordSpec{Deg: model.SimpleInterval(r, 7), Symbol: "m7"}
+		switch i % 3 {
+		case 0:
+			p.Inst = []model.Instance{{Chord: ch, Values: v}, {Chord: ch, Values: one()}}
+		case 1:
+			p.Inst = []model.Instance{{Chord: ch, Values: one()}, {Values: v}, {Chord: ch, Values: one()}}
+		default:
+			p.Inst = []model.Instance{{Chord: ch, Values: one()}, {Chord: ch, Values: v}}
+		}
+		res, out := playPiece(c, p, model.Flags{Track: n}, writeOpts{})
+		if infra(c, res) {
+			return
+		}
+		sig := fmt.Sprintf("hugebeats#%d", i%len(hugeBeats))
+		if a := abnormal(res); a != "" {
+			c.Violate("hugebeats", i, sig+":abnormal", fmt.Sprintf("crd write --track %d %s", n, a), withYAML(obs(res), p))
+			return
+		}
+		if res.OK() {
+			end := "?"
+			if f, _ := decodeSMF(out); f != nil && len(f.Tracks) > 0 {
+				end = fmt.Sprint(f.Tracks[0].EndTick)
+			}
+			c.Violate("hugebeats", i, sig+":accepted", fmt.Sprintf("--track %d: an instance of %s beats (about 2^64 ticks or more, no delta time can hold that) is written to a file that ends at tick %s", n, model.ValuesText(v), end), withYAML(obs(res), p))
+			return
+		}
+		c.Nontrivial(fmt.Sprintf("hugebeats%d", i))
+	})
+
 	c.Stream("beyond32", c.N(4, 24), func(i int, r *rand.Rand) {
 		var p model.Piece
 		k := 18 + r.Intn(9)
